@@ -91,7 +91,11 @@ STMT_KW = ['begin', 'commit', 'rollback', 'insert', 'update', 'delete', 'create'
 for k in STMT_KW:
     # -bound 12: the only loop is the one of the specification function over the keyword's letters (at most 8)
     runs['stmt-' + k] = {'pkg': '.', 'func': 'GetStatementCategory', 'case': 'vc_case_Stmt_' + k, 'unwind': 12}
-STMT_RUNS = ['stmt-' + k for k in STMT_KW]
+STMT_OTHER = ['other%d' % n for n in range(9)] + ['otherlong']
+for k in STMT_OTHER:
+    # the other direction: an ASCII first word of this length that is no keyword (spec loops over at most 9 bytes)
+    runs['stmt-' + k] = {'pkg': '.', 'func': 'GetStatementCategory', 'case': 'vc_case_Stmt_' + k, 'unwind': 12}
+STMT_RUNS = ['stmt-' + k for k in STMT_KW + STMT_OTHER]
 
 PARSER_OBS = ("binlogEvent_Format,binlogEvent_Rotate,binlogEvent_Query,binlogEvent_TableMap,binlogEvent_Rows,binlogEvent_TableID,"
               "GetStatementCategory,appendInsertEventFromRows,appendUpdateEventFromRows,appendDeleteEventFromRows,newError,Error_msgf,"
@@ -206,7 +210,7 @@ props['C01'] = {
 props['C02'] = {
     'level': 'proof',
     'claim': "Loop invariant with ghost state over the real parseEvents (all event sequences, unbounded): grouping state (open transaction, number of buffered changes) matches the statement's step function; the handler is called only at commit points (XID/COMMIT, ROLLBACK with an empty transaction, or a change outside BEGIN..COMMIT), with exactly the buffered changes, at most once per event, and the buffer is empty again after an accepted delivery; ignorable events leave the grouping state untouched.",
-    'note': "Trusted: govc, solvers. In the parser unit statement classification (GetStatementCategory) is an abstract function of the SQL text; its own 12 units decide that each boundary / DML / DDL keyword is recognised in every mixture of ASCII upper and lower case, followed by a space or the end of the text (strings.IndexByte and strings.ToLower by library contract; the keyword table is read from the package initialiser). Not decided: that a first word which is none of the keywords is classified unknown. " + PARSER_ASSUME[1],
+    'note': "Trusted: govc, solvers. In the parser unit statement classification (GetStatementCategory) is an abstract function of the SQL text; its own 22 units decide (a) that each boundary / DML / DDL keyword is recognised in every mixture of ASCII upper and lower case, followed by a space or the end of the text (12 units), and (b) the other direction: a first word of ASCII bytes that is none of the twelve keywords is classified unknown (one unit per word length 0..8, every content, any rest of the statement; one unit for all longer words, where no keyword can match because strings.ToLower keeps the length of an ASCII string) (strings.IndexByte and strings.ToLower by library contract; the keyword table is read from the package initialiser). Not decided: first words with a non-ASCII byte, which strings.ToLower can map onto an ASCII keyword (U+212A KELVIN SIGN lower-cases to k, so such a statement is classified as a rollback by the real code). " + PARSER_ASSUME[1],
     'technique': GEN + "; inductive loop invariant with ghost variables and hook functions, callback contract at the handler call",
     'assumptions': PARSER_ASSUME,
     'runs': ['parser'] + STMT_RUNS,
